@@ -161,8 +161,10 @@ def flags_for(letters):
 
 
 def build_core(layout, fresh, places, n_locs, track=True, stationary=(), geom="hex", symmetry="full", sfp_side=4,
-               placeholder=lambda aid: -(1000 + aid)):
+               placeholder=lambda aid: -(1000 + aid), pooled=None):
     """layout: {asm id: letters} initial assemblies (numbered 0.. in id order, as blueprints do);
+    pooled: {asm id: letters} assemblies pre-loaded into the spent-fuel pool (numbered after the core ones, the way a
+    blueprint-defined pool is loaded), whatever the tracking setting;
     fresh: {asm id: letters} assemblies not yet charged (placeholder, negative assembly numbers);
     places: {asm id: 1-based location index}; n_locs: number of core locations offered to the operations."""
     armi_ready()
@@ -214,6 +216,17 @@ def build_core(layout, fresh, places, n_locs, track=True, stationary=(), geom="h
             w.blk[(aid, k)] = b
         i, j = locs[places[aid] - 1]
         core.add(a, core.spatialGrid[i, j, 0])
+    for aid in sorted(pooled or {}):
+        a = make_assembly(aid, pooled[aid], geom, assem_num=r.incrementAssemNum())
+        w.asm[aid] = a
+        w.letters[aid] = pooled[aid]
+        for k, b in enumerate(a, start=1):
+            w.blk[(aid, k)] = b
+        sfp.add(a)  # no locator: the pool's own col/row filling
+    if pooled:
+        # a loaded reactor knows its pooled assemblies and their blocks by name (Core.regenAssemblyLists, run when a
+        # reactor is restored/distributed; observed on armi's own test reactor with its blueprint-defined pool)
+        core.regenAssemblyLists()
     for aid in sorted(fresh):
         a = make_assembly(aid, fresh[aid], geom, assem_num=placeholder(aid))
         w.asm[aid] = a
@@ -223,7 +236,7 @@ def build_core(layout, fresh, places, n_locs, track=True, stationary=(), geom="h
     # the state a loaded case starts from: nobody has moved yet
     for a in w.asm.values():
         a.p.numMoves = 0
-    core.p.maxAssemNum = r.p.maxAssemNum - 1 if layout else 0
+    core.p.maxAssemNum = len(layout) - 1 if layout else 0
     w.fh = FuelHandler(OperatorStub(r))
     w.sfp_side = sfp_side
     w.fingerprint0 = {key: block_fingerprint(b) for key, b in w.blk.items()}
